@@ -352,6 +352,7 @@ func TestC03(t *testing.T) {
 	units = append(units, ttlPastUnits()...)
 	units = append(units, expireDuringUnits()...)
 	units = append(units, presetUnits()...)
+	units = append(units, adderUnits()...)
 	units = append(units, realMonUnits()...)
 	if only := os.Getenv("C03_ONLY"); only != "" {
 		var f []unit
